@@ -409,6 +409,10 @@ namespace
                 {
                     A                  a;
                     std::vector<void*> mine;
+                    // the size queries are part of "safe to use concurrently as they are"
+                    using traits = fm::allocator_traits<A>;
+                    volatile std::size_t sink = traits::max_node_size(a) + traits::max_array_size(a) + traits::max_alignment(a);
+                    (void)sink;
                     for (int i = 0; i < ops; ++i)
                     {
                         mine.push_back(a.allocate_node(24, 8));
